@@ -96,6 +96,10 @@ def scenario(rng, t, dev):
     for kind in (1, 2, 3, 4):
         for r in [x for x in regs if x["kind"] == kind]:
             v = apicases.good_value(rng, r, t)
+            if kind == 1 and not r["signed"] and rng.chance(1, 3):
+                # the device decides how many bytes it sends: un24 and other odd widths with the high bytes in use
+                w = rng.choice([3, 5, 6, 7, 8])
+                v = rng.bytes(w - 1) + [1 + rng.below(255)]
             if kind == 2 and rng.chance(1, 2):
                 v = list(b" Victron %d  " % rng.below(100)) + [0, 0]
             elif kind == 2 and rng.chance(1, 2):
